@@ -217,9 +217,25 @@ def longruns(patterns, lru=0):
     return out
 
 
+def longruns_expiry(prop):
+    out = []
+    for kind in ("U", "S"):
+        exps = [dict(tti=2), dict(tti=2, ttl=3)] if prop == "C06" else ([dict(ttl=2), dict(ttl=2, tti=3)] if prop == "C05" else [dict(tti=2), dict(ttl=2)])
+        for ex in exps:
+            for rg in (regimes() if kind == "S" else [dict()]):
+                for pattern, n in (("readburst", 450), ("readburst", 70), ("massexpiry", 80), ("massexpiry", 240)):
+                    if pattern == "readburst" and "tti" not in ex:
+                        continue
+                    kw = dict(kind=kind, cap="none", keys=3, A=9, **ex, **rg)
+                    out.append({"id": name("long-%s%d" % (pattern, n), kw), "argv": ["longrun", spec(**kw), pattern, str(n)]})
+    return out
+
+
 def jobs_for(prop, tier):
     thorough = tier == "thorough"
     j = _jobs_for(prop, tier)
+    if prop in ("C03", "C05", "C06"):
+        j = j + longruns_expiry(prop)
     # long scripted histories through the same per-step oracles (thresholds beyond any
     # exhaustive depth: sketch enabled at half full, 128-word table, batches)
     if prop == "C14":
